@@ -312,7 +312,7 @@ pub fn run(ctx: &mut Ctx) {
     let deep = ctx.tier.thorough();
     let thorough = true;
     let cases = crate::gram::generate(if deep { 2 } else { 1 });
-    ctx.rule = "every C01 program (deviation bound 1, thorough 2) whose canonical text parses x {each keyword occurrence x 3 case variants, all keywords at once, each identifier occurrence x case variants, all identifier occurrences in different cases, each non-glued gap x trivia menu (all members), nothing at the gap where the lexical rules allow it, every gap at once x each member, END_IF with and without ';', all keywords in each case variant combined with every END_IF without ';' and with trivia at every gap}; distinct = distinct respelled text".into();
+    ctx.rule = "every C01 program (deviation bound 1, thorough 2) whose canonical text parses x {each keyword occurrence x 3 case variants, all keywords at once, each identifier occurrence x case variants, all identifier occurrences in different cases, each non-glued gap x trivia menu (all members), nothing at the gap where the lexical rules allow it, every gap at once x each member, END_IF with and without ';', all keywords in each case variant combined with every END_IF without ';' and with trivia at every gap}; plus every string up to length 6 (thorough 7) over ( * ) ' \" $ / LF a blank: comment and string boundaries and lexical validity against a reference scanner; distinct = distinct respelled text".into();
     ctx.bounds.insert("deviation_bound".into(), json!(if deep { 2 } else { 1 }));
     ctx.bounds.insert("trivia_menu".into(), json!(trivia_menu().iter().map(|m| m.0).collect::<Vec<_>>()));
     ctx.assumptions.push("library equality is the repository's own PartialEq (spans compare equal, identifiers compare on lower case) plus equality of the case-folded projection π; verdict = sorted analyze() codes".into());
@@ -369,12 +369,17 @@ pub fn run(ctx: &mut Ctx) {
             ctx.sample(s);
         }
     }
+    // where commentary and string text begin and end decides what is code: exhaustive differential sweep
+    crate::lexseg::run_into(ctx, if deep { 7 } else { 6 });
     ctx.states = cases.len() as u64 - skipped;
     ctx.traces = ctx.evaluations;
     ctx.extra.insert("programs_not_parsing_in_canonical_form_(left_to_C01)".into(), json!(skipped));
 }
 
 pub fn replay(case: &Value) -> Result<String, String> {
+    if case["mode"] == json!("lexical-structure") {
+        return crate::lexseg::replay(case["text"].as_str().ok_or("text")?);
+    }
     let id = case["case"].as_str().ok_or("case")?;
     let text = case["respelled_text"].as_str().ok_or("respelled_text")?;
     let c = &crate::gram::find_case(id).ok_or("case id is not in the enumerated space any more")?;
